@@ -580,3 +580,26 @@ M("X-EXPRWALK-skips-args", "C15", [("src/expr.rs", "    pub fn contains_numeric(
     pub fn contains_numeric(&self) -> bool {""")], ["expr-walk"])
 M("C09-R2-csv-semicolon-dialect", "C09", [("src/output/csv.rs", "let mut csv_writer = csv::Writer::from_writer(&mut csv_output);", "let mut csv_writer = csv::WriterBuilder::new().delimiter(b';').from_writer(&mut csv_output);")], ["escape_csv"])
 M("C09-R2-V-csv-builder-capacity", "C09", [("src/output/csv.rs", "let mut csv_writer = csv::Writer::from_writer(&mut csv_output);", "let mut csv_writer = csv::WriterBuilder::new().buffer_capacity(4096).from_writer(&mut csv_output);")], kind="variant")
+M("C02-R1-V-int-through-ordering", "C02", [(O, "impl Op {\n", """impl Op {
+    /// Tells whether a value that compares to the operand as `ordering` satisfies the operator.
+    pub fn accepts(&self, ordering: std::cmp::Ordering) -> bool {
+        use std::cmp::Ordering;
+        match self {
+            Op::Eq | Op::Eeq => ordering == Ordering::Equal,
+            Op::Ne | Op::Ene => ordering != Ordering::Equal,
+            Op::Gt => ordering == Ordering::Greater,
+            Op::Gte => ordering != Ordering::Less,
+            Op::Lt => ordering == Ordering::Less,
+            Op::Lte => ordering != Ordering::Greater,
+            _ => false,
+        }
+    }
+""", 1), (S, """                    match op {
+                        Op::Eq | Op::Eeq => int_value == val,
+                        Op::Ne | Op::Ene => int_value != val,
+                        Op::Gt => int_value > val,
+                        Op::Gte => int_value >= val,
+                        Op::Lt => int_value < val,
+                        Op::Lte => int_value <= val,
+                        _ => false,
+                    }""", "                    op.accepts(int_value.cmp(&val))")], kind="variant")
